@@ -6,7 +6,7 @@ MCScripts4 == UNION {[1..len -> Writes] : len \in 0..4}
 \* a script that fills stderr beyond the pipe before closing stdout
 MCBadForSequential == {<<[s |-> "err", n |-> 3], [s |-> "out", n |-> 1]>>}
 
-\* direction B: what the real output_and_write_streams delivered for each script (unit ids decoded
+\* direction B: what the real output_and_write_streams / spawn_and_write_streams delivered for each script (unit ids decoded
 \* from the bytes) must be what the child wrote, per stream and in order, to writers and Output alike
 CONSTANT Mode
 TraceRec == ndJsonDeserialize(IOEnv.TRACE)
@@ -22,6 +22,8 @@ TraceCheck ==
     \/ /\ r.done
        /\ r.out = Ids(r.script, "out") /\ r.err = Ids(r.script, "err")
        /\ r.writer_out = r.out /\ r.writer_err = r.err
+       \* Returns: the spawn API hands back a lingering child while it is still running
+       /\ (r.api = "spawn" /\ r.linger) => r.returned_before_exit
     \/ (PrintT(<<"TRACE_MISMATCH", i>>) /\ FALSE)
 ASSUME Mode = "trace" => TraceCheck
 =============================================================================
